@@ -36,6 +36,11 @@ func genC19(verifSeed int64, tier string, idx int) *core.Scenario {
 	sp.Faulty = r.Intn(2) == 0
 	nids := 2 + r.Intn(5)
 	for i := 0; i < nids; i++ {
+		// identifiers that some normalisation could confuse with an earlier one of this run
+		if i > 0 && r.Intn(3) == 0 {
+			sp.IDs = append(sp.IDs, confusable(r, sp.IDs[r.Intn(len(sp.IDs))]))
+			continue
+		}
 		switch k := r.Intn(12); {
 		case k == 0 && tier == "thorough":
 			sp.IDs = append(sp.IDs, longID(r))
@@ -81,7 +86,7 @@ func genC19(verifSeed int64, tier string, idx int) *core.Scenario {
 		case k < 8:
 			st = Step{K: "Retrieve", ID: r.Intn(nids), Via: via}
 		default:
-			st = Step{K: "Damage", ID: r.Intn(nids), Dmg: []string{"trunc0", "truncmid", "garbage", "chmod000"}[r.Intn(4)]}
+			st = Step{K: "Damage", ID: r.Intn(nids), Dmg: []string{"trunc0", "truncmid", "garbage", "chmod000", "truncsmall", "garbagesmall", "flipbyte"}[r.Intn(7)], D: r.Intn(1 << 16)}
 		}
 		if sp.Faulty && st.K != "Damage" && r.Intn(4) == 0 {
 			st.Fault = &FaultSpec{K: r.Intn(8), Kind: faultKinds[r.Intn(len(faultKinds))], Arg: r.Intn(40)}
@@ -92,6 +97,52 @@ func genC19(verifSeed int64, tier string, idx int) *core.Scenario {
 	sc.Sched = verifsim.Config{Seed: seed, Policy: "serial", MaxSteps: 2000000, MapOrder: "random"}
 	sc.Spec = encodeSpec(sp)
 	return sc
+}
+
+// confusable derives an identifier that differs from id but that a lossy file-name
+// mapping (escaping, trimming, case folding, path cleaning, truncation) might map to the same entry.
+func confusable(r *rand.Rand, id string) string {
+	esc := func(upper bool) string {
+		var sb strings.Builder
+		for i := 0; i < len(id); i++ {
+			c := id[i]
+			if (c >= 'a' && c <= 'z') || (c >= 'A' && c <= 'Z') || (c >= '0' && c <= '9') || c == '-' || c == '_' {
+				sb.WriteByte(c)
+			} else if upper {
+				fmt.Fprintf(&sb, "%%%02X", c)
+			} else {
+				fmt.Fprintf(&sb, "%%%02x", c)
+			}
+		}
+		return sb.String()
+	}
+	switch r.Intn(12) {
+	case 0:
+		return esc(true)
+	case 1:
+		return esc(false)
+	case 2:
+		return id + " "
+	case 3:
+		return id + "."
+	case 4:
+		return strings.ToUpper(id)
+	case 5:
+		return strings.ToLower(id)
+	case 6:
+		return strings.ReplaceAll(id, "/", "//")
+	case 7:
+		return "./" + id
+	case 8:
+		return strings.ReplaceAll(id, "/", "_")
+	case 9:
+		return strings.ReplaceAll(id, "/", "\\")
+	case 10:
+		return id + "\x00"
+	default:
+		// same long prefix, different tail
+		return strings.Repeat("P", 300) + id
+	}
 }
 
 func (e *env) violate(sig, detail string) { e.res.Violate(sig, detail) }
@@ -489,6 +540,24 @@ func (e *env) step(i int, st Step) string {
 				e.disk.SetData(p, nil)
 			case "truncmid":
 				e.disk.SetData(p, data[:len(data)/2])
+			case "truncsmall":
+				k := 1 + st.D%48
+				if k > len(data) {
+					k = len(data)
+				}
+				e.disk.SetData(p, data[:k])
+			case "garbagesmall":
+				g := make([]byte, 1+st.D%40)
+				for i := range g {
+					g[i] = byte(st.D>>uint(i%8)) ^ byte(i*37)
+				}
+				e.disk.SetData(p, g)
+			case "flipbyte":
+				g := append([]byte{}, data...)
+				if len(g) > 0 {
+					g[st.D%len(g)] ^= byte(1 << uint(st.D%8))
+				}
+				e.disk.SetData(p, g)
 			case "garbage":
 				g := make([]byte, len(data))
 				for i := range g {
